@@ -96,8 +96,13 @@ def dtype_rule(ctx, fi):
                 allocs[e.data['name']] = (e, fixed, dt, dparams)
             elif e.data['name'] in allocs and e.data.get('aug') is None:
                 del allocs[e.data['name']]
+        fill_name = None
         if e.kind == 'store' and e.data.get('target') == 'sub' and isinstance(e.data.get('base_node'), ast.Name):
-            nm = e.data['base_node'].id
+            fill_name = e.data['base_node'].id
+        elif e.kind == 'store' and e.data.get('target') == 'name' and e.data.get('aug') is not None and e.data['name'] in allocs:
+            fill_name = e.data['name']          # `buf += values`: accumulated in place, in the buffer's own dtype
+        if fill_name is not None:
+            nm = fill_name
             if nm in allocs:
                 al, fixed, dt, dparams = allocs[nm]
                 v = e.data['rhs'] if e.data.get('aug') else e.data['value']
@@ -166,14 +171,24 @@ def run(ctx):
                 strip_dtype(r.ret), rr.ret, node=fe.node, construct='return pfb_frontend')
     sa = [e for e in I.events if e.kind == 'store' and e.data.get('target') == 'sub']
     sb = [e for e in IR.events if e.kind == 'store' and e.data.get('target') == 'sub']
-    ctx.require(len(sa) == 1, 'pfb_frontend: expected exactly one row store in the sliding-window loop')
-    ctx.formula('AGREE', 'front end: row index of the store == loop index', fe, sa[0].data['key'], sb[0].data['key'], node=sa[0].node,
-                construct='x_summed[t, :] [index]')
-    ctx.formula('AGREE', 'front end: row t == sum over axis 0 of x_p[t:t+T] * h_p', fe, strip_dtype(sa[0].data['value']),
-                sb[0].data['value'], node=sa[0].node, construct='x_summed[t, :] [value]')
-    la, lb = sa[0].loops[-1], sb[0].loops[-1]
-    ctx.formula('AGREE', 'front end: number of output rows == (W-1)*T', fe, la['trip'], lb['trip'], node=la['node'],
-                construct='for t in range(...)')
+    loops_a = [e for e in I.events if e.kind == 'loop']
+    ctx.require(sa or loops_a, 'pfb_frontend: neither a row store nor a loop found (the sliding-window sum vanished)')
+    if len(sa) != 1 or not sa[0].loops:
+        # the weighted sum is organised differently (e.g. accumulated tap by tap over all rows instead of row by row):
+        # equality of two summation orders is not a normal-form comparison -- not decided here; the returned buffer, the
+        # layout sweep and the dtype rule above/below still are
+        ctx.ob('AGREE', 'front end: the sliding-window sum is organised row by row as in the reference (one row store per output '
+               'row); otherwise the row-wise comparison does not apply', fe, None,
+               {'stores': [e.text() for e in sa], 'loops': [e.text()[:60] for e in loops_a]}, node=fe.node,
+               construct='pfb_frontend loop organisation')
+    else:
+        ctx.formula('AGREE', 'front end: row index of the store == loop index', fe, sa[0].data['key'], sb[0].data['key'], node=sa[0].node,
+                    construct='x_summed[t, :] [index]')
+        ctx.formula('AGREE', 'front end: row t == sum over axis 0 of x_p[t:t+T] * h_p', fe, strip_dtype(sa[0].data['value']),
+                    sb[0].data['value'], node=sa[0].node, construct='x_summed[t, :] [value]')
+        la, lb = sa[0].loops[-1], sb[0].loops[-1]
+        ctx.formula('AGREE', 'front end: number of output rows == (W-1)*T', fe, la['trip'], lb['trip'], node=la['node'],
+                    construct='for t in range(...)')
 
     # ---- D3/D4 channelize incl. cache protocol
     ctx.clause = 'D3'
